@@ -24,9 +24,16 @@ type Solver struct {
 	timeout int // ms
 	log     io.Writer
 
-	poisoned bool
-	syncN    int
-	nRestart int
+	poisoned     bool
+	syncN        int
+	nRestart     int
+	pathLog      []string // declarations / definitions / assertions of the current path (for flat re-solving)
+	inQuery      bool
+	flatLast     string // set when the last Check was answered by the flat fallback
+	flatRef      string
+	flatModelTxt string
+	flatUsed     bool
+	nFlat        int
 
 	nCheck, nSat, nUnsat, nUnknown int
 	solveTime                      time.Duration
@@ -79,7 +86,11 @@ func (s *Solver) start() error {
 		s.send("(set-logic ALL)")
 		s.send(fmt.Sprintf("(set-option :tlimit-per %d)", timeoutMs))
 	} else {
-		s.send(fmt.Sprintf("(set-option :timeout %d)", timeoutMs))
+		inc := timeoutMs
+		if inc > 4000 {
+			inc = 4000 // the incremental core gets a short budget; hard queries go to the flat fallback
+		}
+		s.send(fmt.Sprintf("(set-option :timeout %d)", inc))
 	}
 	s.send("(set-option :produce-models true)")
 	return nil
@@ -128,6 +139,9 @@ func (s *Solver) Close() {
 }
 
 func (s *Solver) send(line string) {
+	if s.inPath && !s.inQuery && (strings.HasPrefix(line, "(declare") || strings.HasPrefix(line, "(define") || strings.HasPrefix(line, "(assert")) {
+		s.pathLog = append(s.pathLog, line)
+	}
 	if s.log != nil {
 		fmt.Fprintln(s.log, line)
 	}
@@ -180,6 +194,8 @@ func (s *Solver) BeginPath() {
 	s.defined = map[int]bool{}
 	s.declVar = map[string]bool{}
 	s.inPath = true
+	s.pathLog = s.pathLog[:0]
+	s.inQuery = false
 }
 
 func (s *Solver) EndPath() {
@@ -257,6 +273,9 @@ func (s *Solver) Check(extra *Term) string {
 	if extra != nil {
 		ref = s.ref(extra) // definitions must live in the path scope, not in the query scope
 	}
+	s.flatLast = ""
+	s.flatUsed = false
+	s.inQuery = true
 	s.send("(push 1)")
 	if extra != nil {
 		s.send("(assert " + ref + ")")
@@ -285,8 +304,16 @@ func (s *Solver) Check(extra *Term) string {
 		if bad || r == "" {
 			// an error line or an unexpected reply: the stream may be out of step -> never trust it again
 			s.poisoned = true
+			return "unknown"
 		}
-		return "unknown"
+		// z3's incremental core gives up on queries that its non-incremental tactics decide at once:
+		// re-solve the whole path as one flat script in a fresh process before reporting unknown.
+		if fr := s.flatSolve(ref, nil); fr == "sat" || fr == "unsat" {
+			s.nUnknown--
+			r = fr
+		} else {
+			return "unknown"
+		}
 	}
 	if r == "sat" {
 		s.nSat++
@@ -301,12 +328,74 @@ func (s *Solver) PopCheck() {
 	if !s.poisoned {
 		s.send("(pop 1)")
 	}
+	s.inQuery = false
+}
+
+// flatSolve runs the current path's assertions plus extraRef in a fresh one-shot solver process.
+// With names != nil it also returns the model values in s.flatModel.
+func (s *Solver) flatSolve(extraRef string, names []string) string {
+	f, err := os.CreateTemp("", "gosym-flat-*.smt2")
+	if err != nil {
+		return "unknown"
+	}
+	defer os.Remove(f.Name())
+	var sb strings.Builder
+	sb.WriteString("(set-option :produce-models true)\n")
+	for _, l := range s.pathLog {
+		sb.WriteString(l)
+		sb.WriteString("\n")
+	}
+	if extraRef != "" {
+		sb.WriteString("(assert " + extraRef + ")\n")
+	}
+	sb.WriteString("(check-sat)\n")
+	if len(names) > 0 {
+		sb.WriteString("(get-value (" + strings.Join(names, " ") + "))\n")
+	}
+	f.WriteString(sb.String())
+	f.Close()
+	s.nFlat++
+	start := time.Now()
+	tsec := s.timeout/1000 + 1
+	out, _ := exec.Command("/usr/bin/z3", fmt.Sprintf("-T:%d", tsec), f.Name()).CombinedOutput()
+	s.solveTime += time.Since(start)
+	txt := strings.TrimSpace(string(out))
+	first := txt
+	rest := ""
+	if i := strings.IndexByte(txt, '\n'); i >= 0 {
+		first, rest = strings.TrimSpace(txt[:i]), txt[i+1:]
+	}
+	if strings.Contains(txt, "(error") && first != "sat" && first != "unsat" {
+		s.lastErr = "flat: " + firstLine(txt)
+		return "unknown"
+	}
+	if first == "sat" || first == "unsat" {
+		s.flatUsed = true
+		s.flatRef = extraRef
+		s.flatModelTxt = rest
+		return first
+	}
+	s.lastErr = "flat: " + first
+	return "unknown"
 }
 
 // Model returns values for the given variables (must be called after a sat Check, before PopCheck).
 func (s *Solver) Model(vars []*Term) (map[string]string, error) {
 	res := map[string]string{}
 	if len(vars) == 0 {
+		return res, nil
+	}
+	if s.flatUsed {
+		var names []string
+		for _, v := range vars {
+			if s.declVar[v.name] {
+				names = append(names, smtName(v.name))
+			}
+		}
+		if r := s.flatSolve(s.flatRef, names); r != "sat" {
+			return res, fmt.Errorf("flat model: %s", r)
+		}
+		parseModel(s.flatModelTxt, res)
 		return res, nil
 	}
 	const chunk = 200
